@@ -21,7 +21,7 @@ from rv.project import Project
 
 PROPERTY = "C19"
 LEVEL = "fault_enumeration"
-BUDGET_S = {"quick": 60, "thorough": 900}
+BUDGET_S = {"quick": 60, "thorough": 3600}
 EXHAUSTIVE = {"quick": False, "thorough": False}
 RULE = (
     "one evaluation = one history: build a pattern (attached or free), then 1-6 bulk edits (set_via_fn / "
@@ -450,7 +450,7 @@ def plan(tier, seed):
     for (l, t) in shapes:
         for attached in (True, False):
             units.append({"kind": "sweep", "lines": l, "tracks": t, "attached": attached})
-    n = 2400 if tier == "quick" else 60000
+    n = 2400 if tier == "quick" else 200000
     per = 100
     for i in range(0, n, per):
         units.append({"kind": "seeded", "seed": seed, "first": i, "count": min(per, n - i), "tier": tier})
